@@ -1,5 +1,7 @@
 // Copyright 2020 TiKV Project Authors. Licensed under Apache-2.0.
 
+use std::collections::VecDeque;
+
 use rtrb::Consumer;
 use rtrb::Producer;
 use rtrb::PushError;
@@ -10,7 +12,7 @@ pub fn bounded<T>(capacity: usize) -> (Sender<T>, Receiver<T>) {
     (
         Sender {
             tx,
-            pending_messages: Vec::new(),
+            pending_messages: VecDeque::new(),
         },
         Receiver { rx },
     )
@@ -18,7 +20,7 @@ pub fn bounded<T>(capacity: usize) -> (Sender<T>, Receiver<T>) {
 
 pub struct Sender<T> {
     tx: Producer<T>,
-    pending_messages: Vec<T>,
+    pending_messages: VecDeque<T>,
 }
 
 pub struct Receiver<T> {
@@ -33,9 +35,9 @@ pub struct ChannelClosed;
 
 impl<T> Sender<T> {
     pub fn send(&mut self, value: T) -> Result<(), ChannelFull> {
-        while let Some(value) = self.pending_messages.pop() {
+        while let Some(value) = self.pending_messages.pop_front() {
             if let Err(PushError::Full(value)) = self.tx.push(value) {
-                self.pending_messages.push(value);
+                self.pending_messages.push_front(value);
                 return Err(ChannelFull);
             }
         }
@@ -44,15 +46,17 @@ impl<T> Sender<T> {
     }
 
     pub fn force_send(&mut self, value: T) {
-        while let Some(value) = self.pending_messages.pop() {
-            if let Err(PushError::Full(value)) = self.tx.push(value) {
-                self.pending_messages.push(value);
-                break;
+        while let Some(pending) = self.pending_messages.pop_front() {
+            if let Err(PushError::Full(pending)) = self.tx.push(pending) {
+                // Keep the order: the new message must not overtake the pending ones.
+                self.pending_messages.push_front(pending);
+                self.pending_messages.push_back(value);
+                return;
             }
         }
 
         if let Err(PushError::Full(value)) = self.tx.push(value) {
-            self.pending_messages.push(value);
+            self.pending_messages.push_back(value);
         }
     }
 }
